@@ -17,14 +17,21 @@
    Time is Z nanoseconds; transaction ids, versions and data are Z tokens (the
    harness uses the identity of the *PoliciesData object as data token).
 
-   Second part (end of file): the policy-mode glue of routing/messages_handler.go
+   Split actions (section "UpdatePoliciesData is not one step"): an update is
+             UpdBegin u d now / <its HAProxy call: anything may run> /
+             UpdCommit u now | UpdFail u now; the correspondence suites run on
+             split histories (type sact), Update / Refused being derived forms.
+
+   Last part (end of file): the policy-mode glue of routing/messages_handler.go
    (processRequest / processResponse look the accessor up under the transaction
    id) with the harness's version marker, suite "routing".
 
-   Case format (harness -> cases.v):  (d0, [(action, got, retained)])
+   Case format (harness -> cases.v):  (d0, [(split action, got, retained)])
      d0        token of the initial PoliciesData (version 1)
      got       for Get: token of the object returned, -1 for an object that was
-               never supplied (the empty PoliciesData fallback); 0 otherwise
+               never supplied (the empty PoliciesData fallback); 0 otherwise;
+               -2 for an operation that did not complete while an update was
+               inside its HAProxy call (blocked; the model never says so)
      retained  tokens of the objects still in policiesVersions after the action,
                in version order *)
 From Coq Require Import List ZArith Bool.
@@ -144,6 +151,17 @@ Definition step (s : st) (a : act) : st * option out :=
 Definition after (s : st) (h : list act) : st :=
   fold_left (fun s a => fst (step s a)) h s.
 
+(* what the look-ups of a history hand out, in order *)
+Fixpoint outs (s : st) (h : list act) : list out :=
+  match h with
+  | [] => []
+  | a :: r =>
+      match snd (step s a) with
+      | Some x => x :: outs (fst (step s a)) r
+      | None => outs (fst (step s a)) r
+      end
+  end.
+
 Definition retained (v : Z) (s : st) : bool :=
   match lookup v (vers s) with Some _ => true | None => false end.
 
@@ -161,9 +179,196 @@ Definition last_data (d0 : Z) (h : list act) : Z :=
 Definition n_updates (h : list act) : Z :=
   fold_left (fun n a => match a with Update _ _ => n + 1 | _ => n end) h 0.
 
+(* data supplied by the successful updates of a history *)
+Definition supplied (h : list act) : list Z :=
+  flat_map (fun a => match a with Update d _ => [d] | _ => [] end) h.
+
+(* ================================================================== *)
+(* UpdatePoliciesData is not one step                                   *)
+
+(* UpdatePoliciesData(d, _) as coded (policies_accessor.go:135-176):
+     1. GetCurrentPoliciesData()            one RLock section, reads only
+        BuildHAProxyEndpointsRequest x 2    pure
+     2. ManageHAProxyEndpoints(new)         HTTP PUTs to HAProxy's management
+                                            port; NO accessor lock is held
+        error -> return                     nothing was published
+     3. setNextVersion(d)                   one Lock section + VacuumKey(prev)
+     4. (scheduled) un-manage calls         HAProxy only
+   No lock serialises whole updates: the admin HTTP handlers and the fail-safe
+   goroutine call it concurrently, so while one update waits in step 2 anything
+   can run: look-ups, vacuum passes, and other updates (which may begin, commit
+   or fail inside the window, or begin inside and finish after it).
+
+   Split actions:
+     UpdBegin u d now   update u (its own id) with data d has passed step 1 and
+                        is now inside the HTTP call; at HEAD nothing is published
+     UpdCommit u now    the call of update u succeeded: setNextVersion(d) runs
+                        on the clock reading now
+     UpdFail u now      the call of update u failed: the update returns
+   The atomic [Update d now] / [Refused now] are the derived forms
+   [UpdBegin u d now; UpdCommit u now] / [UpdBegin u d now; UpdFail u now]
+   (Split.v: update_is_begin_commit, refused_is_begin_fail).
+
+   [pend] = updates inside their call (u -> d: the goroutine's local
+   newPoliciesData); a commit/fail of an update that is not pending does
+   nothing (the harness never produces one).
+
+   Variant switch [publish_before_call] (false = HEAD).  true = the re-ordering
+   "publish first, roll back on error": UpdBegin runs the Lock section of
+   setNextVersion (version cur+1 published, nothing scheduled) and remembers the
+   previous version number; UpdCommit only schedules the vacuum of that previous
+   version; UpdFail deletes the version that is current at that moment and sets
+   the version counter back to the remembered one. *)
+Record variant := { publish_before_call : bool }.
+Definition head : variant := {| publish_before_call := false |}.
+Definition published_first : variant := {| publish_before_call := true |}.
+(* the variant the correspondence suites evaluate *)
+Definition code_variant : variant := head.
+
+Inductive sact :=
+| A (a : act)
+| UpdBegin (u d now : Z)
+| UpdCommit (u now : Z)
+| UpdFail (u now : Z).
+
+Definition stime_of (a : sact) : Z :=
+  match a with
+  | A a => time_of a
+  | UpdBegin _ _ t | UpdCommit _ t | UpdFail _ t => t
+  end.
+
+Record sst := {
+  base : st;
+  pend : amap;      (* updates inside their HAProxy call: u -> data *)
+  pprev : amap      (* variant only: u -> version that was current when u published *)
+}.
+
+Definition sinit (d0 : Z) : sst := {| base := init d0; pend := []; pprev := [] |}.
+
+Definition with_base (s : sst) (b : st) : sst :=
+  {| base := b; pend := pend s; pprev := pprev s |}.
+
+(* the three pieces the variant makes of setNextVersion / adds *)
+Definition publish (s : st) (d : Z) : st :=
+  {| cur := cur s + 1; vers := set (cur s + 1) d (vers s);
+     pins := pins s; txnQ := txnQ s; verQ := verQ s |}.
+Definition schedule (s : st) (p now : Z) : st :=
+  {| cur := cur s; vers := vers s; pins := pins s; txnQ := txnQ s;
+     verQ := verQ s ++ [(now + ttl, p)] |}.
+Definition discard (s : st) (p : Z) : st :=
+  {| cur := p; vers := del (cur s) (vers s);
+     pins := pins s; txnQ := txnQ s; verQ := verQ s |}.
+
+Definition sstep_v (V : variant) (s : sst) (a : sact) : sst * option out :=
+  match a with
+  | A a => let '(b, o) := step (base s) a in (with_base s b, o)
+  | UpdBegin u d now =>
+      (if publish_before_call V
+       then {| base := publish (base s) d; pend := set u d (pend s);
+               pprev := set u (cur (base s)) (pprev s) |}
+       else {| base := base s; pend := set u d (pend s); pprev := pprev s |}, None)
+  | UpdCommit u now =>
+      ({| base := match lookup u (pend s) with
+                  | None => base s
+                  | Some d =>
+                      if publish_before_call V then
+                        match lookup u (pprev s) with
+                        | Some p => schedule (base s) p now
+                        | None => base s
+                        end
+                      else update (base s) d now
+                  end;
+          pend := del u (pend s); pprev := del u (pprev s) |}, None)
+  | UpdFail u now =>
+      ({| base := match lookup u (pend s) with
+                  | None => base s
+                  | Some _ =>
+                      if publish_before_call V then
+                        match lookup u (pprev s) with
+                        | Some p => discard (base s) p
+                        | None => base s
+                        end
+                      else base s
+                  end;
+          pend := del u (pend s); pprev := del u (pprev s) |}, None)
+  end.
+
+Definition safter_v (V : variant) (s : sst) (h : list sact) : sst :=
+  fold_left (fun s a => fst (sstep_v V s a)) h s.
+
+(* what the look-ups of a history hand out, in order *)
+Fixpoint lookups_v (V : variant) (s : sst) (h : list sact) : list out :=
+  match h with
+  | [] => []
+  | a :: r =>
+      let '(s', o) := sstep_v V s a in
+      match o with
+      | Some x => x :: lookups_v V s' r
+      | None => lookups_v V s' r
+      end
+  end.
+
+(* the code at HEAD *)
+Definition sstep := sstep_v head.
+Definition safter := safter_v head.
+Definition lookups := lookups_v head.
+
+(* Does an operation started while updates are inside their HAProxy call wait
+   for a lock one of them holds?  At HEAD (and in the variant) the call is made
+   with no accessor lock held: never.  The harness reports an operation that did
+   not complete inside the window with the observation [blocked_code]. *)
+Definition blocked_by_inflight (V : variant) (s : sst) (a : sact) : bool := false.
+Definition blocked_code : Z := -2.
+
+(* ---- specification vocabulary for split histories ---- *)
+
+(* the atomic action a split action amounts to at HEAD, given the pending
+   updates: the commit is the whole update, everything else of it is invisible *)
+Definition flat1 (p : amap) (a : sact) : act :=
+  match a with
+  | A a => a
+  | UpdBegin _ _ t => Refused t
+  | UpdCommit u t =>
+      match lookup u p with Some d => Update d t | None => Refused t end
+  | UpdFail _ t => Refused t
+  end.
+
+Definition pend1 (p : amap) (a : sact) : amap :=
+  match a with
+  | A _ => p
+  | UpdBegin u d _ => set u d p
+  | UpdCommit u _ | UpdFail u _ => del u p
+  end.
+
+Fixpoint flat (p : amap) (h : list sact) : list act :=
+  match h with
+  | [] => []
+  | a :: r => flat1 p a :: flat (pend1 p a) r
+  end.
+
+(* data of the last COMMITTED update (d0 when there is none), number of
+   committed updates, data of all committed updates *)
+Definition committed_data (d0 : Z) (h : list sact) : Z := last_data d0 (flat [] h).
+Definition n_committed (h : list sact) : Z := n_updates (flat [] h).
+Definition committed (h : list sact) : list Z := supplied (flat [] h).
+
+Definition upd_id (a : sact) : option Z :=
+  match a with
+  | A _ => None
+  | UpdBegin u _ _ | UpdCommit u _ | UpdFail u _ => Some u
+  end.
+
+(* the history without any step of update u *)
+Definition erase (u : Z) (h : list sact) : list sact :=
+  filter (fun a => match upd_id a with Some u' => negb (u' =? u) | None => true end) h.
+
+(* update u is committed somewhere in h *)
+Definition commits (u : Z) (h : list sact) : bool :=
+  existsb (fun a => match a with UpdCommit u' _ => u' =? u | _ => false end) h.
+
 (* ---- correspondence entry point ---- *)
 
-Definition case := (Z * list (act * Z * list Z))%type.
+Definition case := (Z * list (sact * Z * list Z))%type.
 
 Definition got_of (o : option out) : Z :=
   match o with
@@ -173,12 +378,13 @@ Definition got_of (o : option out) : Z :=
   end.
 
 (* the model's (got, retained) after every action *)
-Fixpoint trace (s : st) (h : list act) : list (Z * list Z) :=
+Fixpoint strace (s : sst) (h : list sact) : list (Z * list Z) :=
   match h with
   | [] => []
   | a :: r =>
-      let '(s', o) := step s a in
-      (got_of o, map snd (vers s')) :: trace s' r
+      let '(s', o) := sstep_v code_variant s a in
+      ((if blocked_by_inflight code_variant s a then blocked_code else got_of o),
+       map snd (vers (base s'))) :: strace s' r
   end.
 
 Fixpoint eq_zs (a b : list Z) : bool :=
@@ -195,11 +401,12 @@ Fixpoint eq_tr (a b : list (Z * list Z)) : bool :=
   | _, _ => false
   end.
 
+(* the harness prints got = 0 for everything that is not a look-up, and
+   blocked_code for an operation that did not complete inside a call window *)
 Definition run_case (k : case) : option (list (Z * list Z)) :=
   let '(d0, evs) := k in
-  let m := trace (init d0) (map (fun e => fst (fst e)) evs) in
-  let observed :=
-    map (fun e => (match fst (fst e) with Get _ _ => snd (fst e) | _ => 0 end, snd e)) evs in
+  let m := strace (sinit d0) (map (fun e => fst (fst e)) evs) in
+  let observed := map (fun e => (snd (fst e), snd e)) evs in
   if eq_tr m observed then None else Some m.
 
 (* ================================================================== *)
@@ -219,13 +426,13 @@ Definition run_case (k : case) : option (list (Z * list Z)) :=
    [alive] = sequences that currently have retry state (the plugin's clock is
    frozen by the harness, so the state never expires by itself). *)
 Inductive ract :=
-| Acc (a : act)
+| Acc (a : sact)
 | Req (id seq now : Z)
 | Resp (id seq status now : Z).
 
-Record rst := { acc : st; alive : list Z }.
+Record rst := { acc : sst; alive : list Z }.
 
-Definition rinit (d0 : Z) : rst := {| acc := init d0; alive := [] |}.
+Definition rinit (d0 : Z) : rst := {| acc := sinit d0; alive := [] |}.
 
 Definition marker (d : Z) : Z := 500 + d.
 
@@ -250,24 +457,24 @@ Definition dispatch_resp (al : list Z) (id seq status : Z) (d : option Z) : list
 Definition rstep (s : rst) (a : ract) : rst * Z :=
   match a with
   | Acc a =>
-      let '(s', o) := step (acc s) a in ({| acc := s'; alive := alive s |}, got_of o)
+      let '(s', o) := sstep (acc s) a in ({| acc := s'; alive := alive s |}, got_of o)
   | Req id _ now =>
-      ({| acc := fst (get (acc s) id now); alive := alive s |}, 0)
+      ({| acc := with_base (acc s) (fst (get (base (acc s)) id now)); alive := alive s |}, 0)
   | Resp id seq status now =>
-      let '(s', o) := get (acc s) id now in
+      let '(s', o) := get (base (acc s)) id now in
       let '(al, r) := dispatch_resp (alive s) id seq status (o_data o) in
-      ({| acc := s'; alive := al |}, r)
+      ({| acc := with_base (acc s) s'; alive := al |}, r)
   end.
 
 Definition rafter (s : rst) (h : list ract) : rst :=
   fold_left (fun s a => fst (rstep s a)) h s.
 
 (* the accessor actions a routing history amounts to *)
-Definition proj (a : ract) : act :=
+Definition proj (a : ract) : sact :=
   match a with
   | Acc a => a
-  | Req id _ now => Get id now
-  | Resp id _ _ now => Get id now
+  | Req id _ now => A (Get id now)
+  | Resp id _ _ now => A (Get id now)
   end.
 
 (* ---- correspondence entry point, suite "routing" ---- *)
@@ -279,7 +486,8 @@ Fixpoint rtrace (s : rst) (h : list ract) : list (Z * list Z) :=
   | [] => []
   | a :: r =>
       let '(s', o) := rstep s a in
-      (o, map snd (vers (acc s'))) :: rtrace s' r
+      ((if blocked_by_inflight code_variant (acc s) (proj a) then blocked_code else o),
+       map snd (vers (base (acc s')))) :: rtrace s' r
   end.
 
 Definition run_rcase (k : rcase) : option (list (Z * list Z)) :=
